@@ -277,9 +277,11 @@ structure BaiRec where
   chunk : Chunk
 deriving DecidableEq, Repr, Inhabited
 
-/-- `sam.Record.Bin` = `BinFor(Pos, End())` with `binOf = internal.BinFor` (the flags play no role
-since the repair of DESIGN §6 #24) -/
-def recBin (binOf : Int → Int → Nat) (r : BaiRec) : Nat := binOf r.pos r.stop
+/-- `sam.Record.Bin` = `BinFor(Pos, End())` with `binOf = internal.BinFor`; an alignment that consumes no
+reference (`End() = Pos`) is binned as one base long (the flags play no role since the repair of
+DESIGN §6 #24) -/
+def recBin (binOf : Int → Int → Nat) (r : BaiRec) : Nat :=
+  binOf r.pos (if r.stop = r.pos then r.stop + 1 else r.stop)
 
 def toRec (binOf : Int → Int → Nat) (r : BaiRec) : Rec :=
   { rid := if r.hasRef then r.rid else -1, start := r.pos, stop := r.stop, bin := recBin binOf r,
